@@ -26,7 +26,7 @@ BOUNDS = {"quick": {"tree_nodes": 4, "chain_depth": 3}, "thorough": {"tree_nodes
 
 
 def selectors(tier):
-    out = list(E.chain_selectors(3)) + list(E.sibling_selectors(deep=(tier == "thorough")))
+    out = list(E.chain_selectors(3)) + list(E.sibling_selectors(deep=(tier == "thorough"))) + list(E.value_selectors())
     return out
 
 
